@@ -37,6 +37,23 @@ class Body:
     filter_if: Optional[ast.If]
     gather: List[ast.Assign] = field(default_factory=list)
     ctor: Optional[ast.Call] = None
+    form: str = "A"                      # A: enumerate(records) + time-step filter; B: loop over the group's own index list
+    k_var: Optional[str] = None          # form B: position of the record within its group (enumerate index)
+    org_list: Optional[str] = None       # form B: name of the list of original indices of the group
+    filter_key: Optional[ast.AST] = None  # the expression compared with the group's time step
+    stmts: List[ast.stmt] = field(default_factory=list)   # statements executed for a processed record
+    bind_stmt: Optional[ast.stmt] = None  # form B: `record = records[org_idx]`
+
+
+def _dt_compare(test: ast.AST, dt_var: str):
+    """(op, other side) of a comparison of something with the group's time step."""
+    if isinstance(test, ast.Compare) and len(test.ops) == 1 and isinstance(test.ops[0], (ast.Eq, ast.NotEq)):
+        l, r = test.left, test.comparators[0]
+        if isinstance(r, ast.Name) and r.id == dt_var:
+            return type(test.ops[0]), l
+        if isinstance(l, ast.Name) and l.id == dt_var:
+            return type(test.ops[0]), r
+    return None, None
 
 
 def extract_body(prog: Program, qualname: str) -> Body:
@@ -55,18 +72,6 @@ def extract_body(prog: Program, qualname: str) -> Body:
         dt_var, count_var = g.target.id, None
     else:
         raise AnalysisError(f"{qualname}: group loop `{norm_key(g, 80)}` is not a loop over the time steps of dt_with_count")
-    rl = [st for st in g.body if isinstance(st, ast.For) and "records" in unparse(st.iter)]
-    if len(rl) != 1:
-        raise AnalysisError(f"{qualname}: expected one per-record loop inside the group loop")
-    r = rl[0]
-    if unparse(r.iter) != "enumerate(records)" or not isinstance(r.target, ast.Tuple):
-        raise AnalysisError(f"{qualname}: per-record loop is not `for org_idx, record in enumerate(records)`")
-    org_idx, record = unparse(r.target.elts[0]), unparse(r.target.elts[1])
-    filt = None
-    for st in r.body:
-        if isinstance(st, ast.If) and any(isinstance(b, ast.Continue) for b in st.body) and not st.orelse:
-            filt = st
-            break
     gather = [st for st in own_nodes(f.node) if isinstance(st, ast.Assign) and isinstance(st.value, ast.Subscript)
               and unparse(st.value.slice) == "hvsr_indices_to_order"]
     rets = [x for x in own_nodes(f.node) if isinstance(x, ast.Return)]
@@ -74,7 +79,61 @@ def extract_body(prog: Program, qualname: str) -> Body:
     for x in rets:
         if isinstance(x.value, ast.Call) and call_name(x.value) == "HvsrTraditional":
             ctor = x.value
-    return Body(f, g, r, org_idx, record, dt_var, count_var, filt, gather, ctor)
+    loops = [st for st in g.body if isinstance(st, ast.For)]
+    # ---- form A: for org_idx, record in enumerate(records) with a time-step filter
+    rl = [st for st in loops if unparse(st.iter) == "enumerate(records)" and isinstance(st.target, ast.Tuple) and len(st.target.elts) == 2]
+    if len(rl) == 1:
+        r = rl[0]
+        org_idx, record = unparse(r.target.elts[0]), unparse(r.target.elts[1])
+        filt, key, stmts = None, None, list(r.body)
+        first = r.body[0] if r.body else None
+        if isinstance(first, ast.If):
+            op, other = _dt_compare(first.test, dt_var)
+            if op is ast.NotEq and not first.orelse and len(first.body) == 1 and isinstance(first.body[0], ast.Continue):
+                filt, key, stmts = first, other, list(r.body[1:])
+            elif op is ast.Eq and not first.orelse and len(r.body) == 1:
+                filt, key, stmts = first, other, list(first.body)
+        if filt is None:
+            for st in r.body:
+                if isinstance(st, ast.If) and any(isinstance(b, ast.Continue) for b in st.body) and not st.orelse:
+                    filt = st
+                    break
+            stmts = [st for st in r.body if st is not filt]
+        return Body(f, g, r, org_idx, record, dt_var, count_var, filt, gather, ctor, "A", None, None, key, stmts)
+    # ---- form B: the group's original indices are collected first, the loop runs over them
+    for lp in loops:
+        it = lp.iter
+        k_var = None
+        if isinstance(it, ast.Call) and call_name(it) == "enumerate" and len(it.args) == 1 and isinstance(it.args[0], ast.Name) \
+                and isinstance(lp.target, ast.Tuple) and len(lp.target.elts) == 2:
+            lst, k_var, org_idx = it.args[0].id, unparse(lp.target.elts[0]), unparse(lp.target.elts[1])
+        elif isinstance(it, ast.Name) and isinstance(lp.target, ast.Name):
+            lst, org_idx = it.id, lp.target.id
+        else:
+            continue
+        d = [st for st in g.body if isinstance(st, ast.Assign) and len(st.targets) == 1 and isinstance(st.targets[0], ast.Name)
+             and st.targets[0].id == lst and st.lineno < lp.lineno]
+        if len(d) != 1 or not isinstance(d[0].value, ast.ListComp) or len(d[0].value.generators) != 1:
+            continue
+        gen = d[0].value.generators[0]
+        if unparse(gen.iter) != "enumerate(records)" or not isinstance(gen.target, ast.Tuple) or len(gen.target.elts) != 2 or len(gen.ifs) != 1:
+            continue
+        o2, rec2 = unparse(gen.target.elts[0]), unparse(gen.target.elts[1])
+        if unparse(d[0].value.elt) != o2:
+            continue
+        op, other = _dt_compare(gen.ifs[0], dt_var)
+        if op is not ast.Eq:
+            continue
+        bind = [st for st in lp.body if isinstance(st, ast.Assign) and len(st.targets) == 1 and isinstance(st.targets[0], ast.Name)
+                and unparse(st.value) == f"records[{org_idx}]"]
+        if len(bind) != 1:
+            continue
+        record = bind[0].targets[0].id
+        # express the filter key in terms of the loop's record variable
+        key = ast.parse(unparse(other).replace(rec2, record) if rec2 != record else unparse(other), mode="eval").body
+        stmts = [st for st in lp.body if st is not bind[0]]
+        return Body(f, g, lp, org_idx, record, dt_var, count_var, None, gather, ctor, "B", k_var, lst, key, stmts, bind[0])
+    raise AnalysisError(f"{qualname}: expected one per-record loop inside the group loop")
 
 
 class RowExec:
